@@ -110,6 +110,7 @@ type Conn struct {
 	readBuf          []byte
 	readErr          error
 	writeBuf         []byte
+	writeErr         error
 	retryCount       *atomic.Int32
 	readPassthrough  bool
 	writePassthrough bool
@@ -367,17 +368,25 @@ func (c *Conn) Write(b []byte) (int, error) {
 	if c.writePassthrough && len(c.writeBuf) == 0 {
 		return c.Conn.Write(b)
 	}
+	if c.writeErr != nil {
+		return 0, c.writeErr
+	}
 	c.writeBuf = append(c.writeBuf, b...)
 	for len(c.writeBuf) >= 5 {
 		length := uint32(c.writeBuf[3])<<8 | uint32(c.writeBuf[4])
 		if length > maxRecordLength {
-			return 0, fmt.Errorf("%w: record length %d > %d", ErrDecodeError, length, maxRecordLength)
+			// The stream can't be framed anymore. Don't keep buffering it.
+			c.writeErr = fmt.Errorf("%w: record length %d > %d", ErrDecodeError, length, maxRecordLength)
+			c.writeBuf = nil
+			return 0, c.writeErr
 		}
 		sz := int(length) + 5
 		if sz > len(c.writeBuf) {
 			break
 		}
 		if err := c.inspectWrite(c.writeBuf[:sz]); err != nil {
+			c.writeErr = err
+			c.writeBuf = nil
 			return 0, err
 		}
 		n, err := c.Conn.Write(c.writeBuf[:sz])
